@@ -1,4 +1,5 @@
 import QbeeModel.Lemmas.ExprSem
+import QbeeModel.Model.Src
 /-
   C01  Compiled programs do what their QBASIC source says.  Property theorems only.
 
@@ -177,3 +178,68 @@ theorem idiv_mod_agree_nonneg (a b : Int) (ha : 0 ≤ a) (hb : 0 < b) :
 example : ty (CE.bin 10 (CE.bin 1 (CE.leaf (.int .i 3)) (CE.leaf (.int .i 4))) (CE.leaf (.int .l 9)) : CE Nat).erase = some .i := by decide
 
 end Qbee.ExprSem
+
+/-! ### statement level: the reference semantics of structured control flow (Model/Src.lean)
+
+  The correspondence of harness/checks/c01.py runs generated structured programs through this interpreter and through the
+  real compiler + machine in all six configurations.  The lemmas below state what the reference semantics itself
+  prescribes for the constructs the property names. -/
+namespace Qbee.Src
+
+/-- EXIT DO ends exactly the DO loop whose body raised it: the loop returns normally, with the state at the EXIT -/
+theorem exit_do_leaves_this_loop (fuel : Nat) (env : Env) (out : List Int) (post : Expr) (qk : Nat) (body : List Stmt) (res : Res)
+    (hb : execList fuel env out body = some res) (hs : res.sig = .exitDo) :
+    loopDo (fuel + 1) env out 0 (.lit 0) qk post body = some ⟨res.env, res.out, .normal⟩ := by
+  simp [loopDo, hb, hs]
+
+/-- ... and an enclosing FOR loop does not swallow it: EXIT DO inside a FOR inside a DO leaves the DO -/
+theorem for_passes_exit_do (fuel : Nat) (env : Env) (out : List Int) (v : Nat) (lim st : Int) (body : List Stmt) (res : Res)
+    (hin : ((decide (st ≥ 0) && decide (getVar env v > lim)) || (decide (st < 0) && decide (getVar env v < lim))) = false)
+    (hb : execList fuel env out body = some res) (hs : res.sig = .exitDo) :
+    loopFor (fuel + 1) env out v lim st body = some res := by
+  simp [loopFor, hin, hb, hs]
+
+/-- EXIT FOR ends exactly the FOR loop whose body raised it; the loop variable keeps its value -/
+theorem exit_for_leaves_this_loop (fuel : Nat) (env : Env) (out : List Int) (v : Nat) (lim st : Int) (body : List Stmt) (res : Res)
+    (hin : ((decide (st ≥ 0) && decide (getVar env v > lim)) || (decide (st < 0) && decide (getVar env v < lim))) = false)
+    (hb : execList fuel env out body = some res) (hs : res.sig = .exitFor) :
+    loopFor (fuel + 1) env out v lim st body = some ⟨res.env, res.out, .normal⟩ := by
+  simp [loopFor, hin, hb, hs]
+
+/-- a DO loop passes EXIT FOR on to the FOR loop around it -/
+theorem do_passes_exit_for (fuel : Nat) (env : Env) (out : List Int) (post : Expr) (qk : Nat) (body : List Stmt) (res : Res)
+    (hb : execList fuel env out body = some res) (hs : res.sig = .exitFor) :
+    loopDo (fuel + 1) env out 0 (.lit 0) qk post body = some res := by
+  simp [loopDo, hb, hs]
+
+/-- statements after an EXIT, END or failing statement in the same list are not executed -/
+theorem execList_stops (fuel : Nat) (env : Env) (out : List Int) (s : Stmt) (rest : List Stmt) (res : Res)
+    (h : exec fuel env out s = some res) (hs : res.sig ≠ .normal) :
+    execList (fuel + 1) env out (s :: rest) = some res := by
+  simp [execList, h, hs]
+
+/-- a FOR loop whose start is beyond its limit does not execute its body (and leaves the variable at the start value) -/
+theorem for_empty_range (fuel : Nat) (env : Env) (out : List Int) (v : Nat) (lim st : Int) (body : List Stmt)
+    (h : (st ≥ 0 ∧ getVar env v > lim) ∨ (st < 0 ∧ getVar env v < lim)) :
+    loopFor (fuel + 1) env out v lim st body = some ⟨env, out, .normal⟩ := by
+  rcases h with ⟨h1, h2⟩ | ⟨h1, h2⟩ <;> simp [loopFor, h1, h2]
+
+/-- WHILE with a false condition skips the body; UNTIL with a non-zero condition (any non-zero value, not only -1) ends a
+    DO UNTIL loop before its first iteration -/
+theorem while_false_skips (fuel : Nat) (env : Env) (out : List Int) (c : Expr) (body : List Stmt) (h : eval env c = .ok 0) :
+    loopWhile (fuel + 1) env out c body = some ⟨env, out, .normal⟩ := by
+  simp [loopWhile, h]
+
+theorem do_until_nonzero_skips (fuel : Nat) (env : Env) (out : List Int) (pre post : Expr) (qk : Nat) (body : List Stmt) (x : Int)
+    (h : eval env pre = .ok x) (hx : x ≠ 0) :
+    loopDo (fuel + 1) env out 2 pre qk post body = some ⟨env, out, .normal⟩ := by
+  simp [loopDo, h, condHolds, hx, Except.map]
+
+/-- non-vacuity: a body `PRINT 5 : EXIT DO : PRINT 6` raises EXIT DO after printing 5, so the premises of
+    `exit_do_leaves_this_loop` are met and the loop ends with output [5] -/
+example : execList 3 [0] [] [.print (.lit 5), .exitDo, .print (.lit 6)] = some ⟨[0], [5], .exitDo⟩ := by
+  simp [execList, exec, eval]
+example : loopDo 4 [0] [] 0 (.lit 0) 0 (.lit 0) [.print (.lit 5), .exitDo, .print (.lit 6)] = some ⟨[0], [5], .normal⟩ :=
+  exit_do_leaves_this_loop 3 [0] [] (.lit 0) 0 _ ⟨[0], [5], .exitDo⟩ (by simp [execList, exec, eval]) rfl
+
+end Qbee.Src
